@@ -4,103 +4,10 @@ From Coq Require Import ZArith List Bool Arith Lia.
 From SP Require Import Design.Flat Design.Layout Comb.CombModel Comb.CombSpec Random.Enum Random.Frag
   Random.RunLemmas Random.FragPerm Random.Frag0Enum.
 From SP Require Comb.PermProofs Comb.RadixProofs Comb.StackProofs Comb.TotalProofs.
+From SP Require Export Random.ListFacts.
 Import ListNotations.
 Open Scope nat_scope.
 Set Default Proof Using "All".
-
-Definition zeros (k : nat) : list Z := repeat 0%Z k.
-
-Lemma enumerate_from_nth {A} (xs : list A) : forall i0 k d,
-  k < length xs -> nth k (enumerate_from i0 xs) (0%Z, d) = ((i0 + Z.of_nat k)%Z, nth k xs d).
-Proof.
-  induction xs as [|x t IH]; intros i0 k d Hk; cbn in Hk; [lia|].
-  destruct k; cbn [enumerate_from nth]; [f_equal; lia|].
-  rewrite IH by lia. f_equal. lia.
-Qed.
-
-Lemma enumerate_from_In {A} (xs : list A) : forall i0 p,
-  In p (enumerate_from i0 xs) -> exists k, k < length xs /\ fst p = (i0 + Z.of_nat k)%Z /\ nth_error xs k = Some (snd p).
-Proof.
-  induction xs as [|x t IH]; intros i0 p Hp; cbn in Hp; [destruct Hp|].
-  destruct Hp as [Hp | Hp].
-  - subst p. exists 0. cbn. repeat split; [lia | lia].
-  - destruct (IH _ _ Hp) as (k & Hk & Hf & Hn). exists (S k). cbn. repeat split; [lia | lia | exact Hn].
-Qed.
-
-Lemma enumerate_from_combine {A} (xs : list A) : forall i0,
-  enumerate_from i0 xs = combine (map (fun k => (i0 + Z.of_nat k)%Z) (seq 0 (length xs))) xs.
-Proof.
-  induction xs as [|x t IH]; intros i0; [reflexivity|].
-  cbn [enumerate_from length seq map combine]. f_equal; [f_equal; lia|].
-  rewrite IH. f_equal. rewrite <- seq_shift, map_map. apply map_ext. intros k. lia.
-Qed.
-
-Lemma zindex_nth_ok (l : list nat) d : (0 <= d < Z.of_nat (length l))%Z -> zindex l d = ROk (nth (Z.to_nat d) l 0).
-Proof. intros H. apply zindex_some; [lia|]. apply nth_error_nth'. lia. Qed.
-
-Lemma zindex_seq nl d : (0 <= d < Z.of_nat nl)%Z -> zindex (seq 0 nl) d = ROk (Z.to_nat d).
-Proof.
-  intros H. apply zindex_some; [lia|]. rewrite nth_error_nth' with (d := 0) by (rewrite seq_length; lia).
-  rewrite seq_nth by lia. reflexivity.
-Qed.
-
-Lemma nth_error_nth_ok {A} (xs : list A) k d : k < length xs -> nth_error xs k = Some (nth k xs d).
-Proof. intros H. apply nth_error_nth'. exact H. Qed.
-
-Lemma Forall_nth' {A} (P : A -> Prop) xs k d : Forall P xs -> k < length xs -> P (nth k xs d).
-Proof. intros H Hk. rewrite Forall_forall in H. apply H. apply nth_In. exact Hk. Qed.
-
-Lemma in_zeros x k : In x (zeros k) -> x = 0%Z.
-Proof. unfold zeros. intros H. apply repeat_spec in H. exact H. Qed.
-
-Lemma nth_zeros k i : nth i (zeros k) 0%Z = 0%Z.
-Proof. unfold zeros. revert i. induction k; intros [|i]; cbn; auto. Qed.
-
-Lemma zeros_length k : length (zeros k) = k.
-Proof. apply repeat_length. Qed.
-
-Lemma map_fst_combine {A B} (xs : list A) (ys : list B) : length xs = length ys -> map fst (combine xs ys) = xs.
-Proof.
-  revert ys. induction xs as [|x t IH]; intros [|y ys] H; cbn in *; try discriminate; [reflexivity|].
-  f_equal. apply IH. lia.
-Qed.
-
-Lemma find_by_key (rows : list (nat * list nat)) j fr :
-  NoDup (map fst rows) -> nth_error rows j = Some fr ->
-  find (fun x => fst x =? fst fr) rows = Some fr.
-Proof.
-  revert j. induction rows as [|[f row] rest IH]; intros j Hnd Hj; [destruct j; discriminate|].
-  cbn [map fst] in Hnd. inversion Hnd; subst. cbn [find fst]. destruct j; cbn in Hj.
-  - inversion Hj; subst. cbn [fst]. rewrite Nat.eqb_refl. reflexivity.
-  - destruct (f =? fst fr) eqn:E.
-    + apply Nat.eqb_eq in E. exfalso. apply H1. rewrite E. apply in_map. eapply nth_error_In. exact Hj.
-    + eapply IH; eassumption.
-Qed.
-
-Lemma alookup_rows (rows : list (nat * list nat)) t g :
-  alookup (map (fun fr => (fst fr, nth t (snd fr) 0)) rows) g =
-  match find (fun fr => fst fr =? g) rows with Some fr => Some (nth t (snd fr) 0) | None => None end.
-Proof.
-  induction rows as [|[f row] rest IH]; [reflexivity|].
-  cbn [map fst snd find]. rewrite alookup_cons. destruct (f =? g); [reflexivity | exact IH].
-Qed.
-
-Lemma cells_for_map {A} (h : A -> asg) (xs : list A) g (lv : A -> nat) :
-  (forall x, In x xs -> alookup (h x) g = Some (lv x)) ->
-  cells_for (map h xs) g = map (fun x => Some (lv x)) xs.
-Proof.
-  induction xs as [|x t IH]; intros H; [reflexivity|].
-  cbn [map cells_for flat_map]. rewrite (H x (or_introl eq_refl)). cbn [app]. f_equal.
-  apply IH. intros y Hy. apply H. right. exact Hy.
-Qed.
-
-Lemma cells_for_none {A} (h : A -> asg) (xs : list A) g :
-  (forall x, In x xs -> alookup (h x) g = None) -> cells_for (map h xs) g = [].
-Proof.
-  induction xs as [|x t IH]; intros H; [reflexivity|].
-  cbn [map cells_for flat_map]. rewrite (H x (or_introl eq_refl)). cbn [app].
-  apply IH. intros y Hy. apply H. right. exact Hy.
-Qed.
 
 Section F0D.
 Variable fb : flat.
